@@ -45,6 +45,24 @@ def make_case(rng):
     return {'prog': prog, 'steps': steps, 'mode': 'window', 'registered': reg, 'twin_mode': mode}
 
 
+def same_name_twins_case(via_module, n=4):
+    """two files holding the same function under the same name on the same lines (a copied module), each with a caller of its own"""
+    body = 'def handle(n):\n    a = n\n    for i in range(n):\n        a += i\n    return a\n\n\n'
+    f0 = body + 'def call_a(n):\n    return handle(n) + 1\n'
+    f1 = body + 'def call_b(n):\n    return handle(n) + 2\n'
+    main = 'def driver(n):\n    out = []\n    for k in range(3):\n        out.append(call_a(n))\n    for k in range(5):\n        out.append(call_b(n + 1))\n    return out\n'
+    prog = {'files': [['prog_lib.py', progs.PRELUDE], ['prog_0.py', f0], ['prog_1.py', f1], ['prog_main.py', main]],
+            'funcs': [['prog_0.py', 'handle', 'plain'], ['prog_0.py', 'call_a', 'plain'], ['prog_1.py', 'handle', 'plain'], ['prog_1.py', 'call_b', 'plain'],
+                      ['prog_main.py', 'driver', 'plain']],
+            'driver': 'driver', 'features': ['same-name-twins']}
+    if via_module:
+        adds = [['add_module', 'prog_0.py'], ['add_module', 'prog_1.py']]
+    else:
+        adds = [['add', 'call_a'], ['add', 'call_b']]
+    return {'prog': prog, 'steps': adds + [['enbc'], ['call', n], ['disbc'], ['snapshot']], 'mode': 'window',
+            'registered': ['handle', 'call_a', 'call_b'], 'twin_mode': 'same_name_same_lines'}
+
+
 def oracle(r, nwindows=1):
     """(status, detail): 'ok' | 'alias' (explained exactly by unregistered byte-identical code: F-C04a) | 'bad'"""
     real = corelib.parse_stats(r['real_snaps'][-1])
@@ -105,6 +123,7 @@ def run(ctx):
         for f in sorted(os.listdir(corpus_dir)):
             cases.append(json.load(open(os.path.join(corpus_dir, f))))
     ncorpus = len(cases)
+    cases += [same_name_twins_case(True), same_name_twins_case(True, 2), same_name_twins_case(False)]
     for i in range(n):
         cases.append(make_case(ctx.rng.fork('case%d' % i)))
     ctx.log('running %d cases (%d from corpus)' % (len(cases), ncorpus))
